@@ -91,12 +91,18 @@ pub fn run(stim: &Value, rec: &Rec) {
         let mut sig_tx = Some(sig_tx);
         let log_s = log.clone();
         let srv_timeout = stim["timeout_ms"].as_u64();
+        let with_layer = stim["layer"].as_bool().unwrap_or(false);
         let svc = SvcServer::new(h.clone());
         let serve = tokio::spawn(async move {
             let mut b = tonic::transport::Server::builder().max_connection_age(Duration::from_millis(AGE_MS));
             if let Some(ms) = srv_timeout { b = b.timeout(Duration::from_millis(ms)); }      // Server::timeout: bounds the handler future, not the response stream
-            let r = b.add_service(svc)
-                .serve_with_incoming_shutdown(Incoming { rx, log: log_s.clone() }, async move { if sig_rx.await.is_err() { std::future::pending::<()>().await } }).await;
+            let sig = async move { if sig_rx.await.is_err() { std::future::pending::<()>().await } };
+            // stim.layer: a do-nothing tower layer added after the builder options (Server::layer rebuilds the builder: nothing may be lost)
+            let r = if with_layer {
+                b.layer(tower::layer::util::Identity::new()).add_service(svc).serve_with_incoming_shutdown(Incoming { rx, log: log_s.clone() }, sig).await
+            } else {
+                b.add_service(svc).serve_with_incoming_shutdown(Incoming { rx, log: log_s.clone() }, sig).await
+            };
             log_s.ev(json!({"e":"resolved","ok":r.is_ok()}));
         });
         let sh = &stim["shim"];
